@@ -1,7 +1,7 @@
 (** C22 — every block's dependency graph is a well-formed DAG.
     Pinned statements only; proofs live in Proofs/GraphProofs.v (model: Model/Graph.v). *)
 From Coq Require Import List NArith Bool Relations.
-From QV Require Import Model.DepQueue Model.Graph Proofs.GraphProofs.
+From QV Require Import Model.DepQueue Model.Graph Proofs.GraphProofs Proofs.GraphReachProofs.
 Import ListNotations.
 Local Open Scope N_scope.
 
@@ -21,6 +21,15 @@ Theorem C22_acyclic :
     build is term = inr E -> wf_block is term = true ->
     forall x, ~ clos_trans N (gerel E) x x.
 Proof. intros is term E Hb Hwf. exact (forward_acyclic _ _ (build_forward _ _ _ Hb Hwf)). Qed.
+
+(** When moreover every RF-control instruction matches at least one frame, every instruction node
+    is reachable from the block start and reaches the block end. *)
+Theorem C22_all_reachable :
+  forall (is : list info) (term : option info) (E : list gedge),
+    build is term = inr E -> wf_block is term = true -> forallb has_frames is = true ->
+    forall i, 1 <= i <= N.of_nat (length is) ->
+      clos_refl_trans N (gerel E) 0 i /\ clos_refl_trans N (gerel E) i (N.succ (N.of_nat (length is))).
+Proof. exact build_reach. Qed.
 
 (** The instance checkers run on the implementation's edge list decide these clauses. *)
 Theorem C22_chk_dag_sound :
